@@ -145,7 +145,7 @@ def locF (f : File) (lat lon : F64) : Option (Int × Int × F64 × F64) :=
   let fx := lon * rlonres
   let fy := F64.neg lat * rlatres
   let ix := fl fx
-  let iy := min ((f.h - 1) / 2 - 1) (fl fy)
+  let iy := max (-((f.h - 1) / 2)) (min ((f.h - 1) / 2 - 1) (fl fy))   -- both poles stay in the first / last row of cells
   let fx := fx - F64.ofInt ix
   let fy := fy - F64.ofInt iy
   let iy := iy + (f.h - 1) / 2
